@@ -373,6 +373,36 @@ func runC03(in sx.SX) (sx.SX, string) {
 	}
 	calc.SetVariantOperations(newManager(safe))
 	res, err := calc.EvaluateUsingVariables(vars)
+	// the same collection after variables were taken out of it, from the end and from the front, then put back: every
+	// evaluation still ends with exactly one of a result and an error (a panic is caught by the driver and reported)
+	again := func(what string) string {
+		r2, e2 := calc.EvaluateUsingVariables(vars)
+		if (r2 == nil) == (e2 == nil) {
+			return "after " + what + ", Evaluate returned both or neither of a result and an error"
+		}
+		return ""
+	}
+	if all := vars.GetAll(); len(all) > 0 {
+		last, first := all[len(all)-1], all[0]
+		vars.RemoveByName(last.Name())
+		if f := again("RemoveByName of the last variable"); f != "" {
+			return sx.L(sx.I(-995)), f
+		}
+		vars.FindByName(first.Name())
+		vars.RemoveByName(first.Name())
+		if f := again("RemoveByName of the first variable"); f != "" {
+			return sx.L(sx.I(-995)), f
+		}
+		vars.Add(first)
+		vars.Add(last)
+		if f := again("adding the variables again"); f != "" {
+			return sx.L(sx.I(-995)), f
+		}
+		vars.Clear()
+		if f := again("Clear"); f != "" {
+			return sx.L(sx.I(-995)), f
+		}
+	}
 	switch {
 	case err != nil && res != nil:
 		return sx.L(sx.I(-997)), "Evaluate returned both a result and an error"
